@@ -593,6 +593,20 @@ func (vc *VC) selectField(env *Env, x *Val, name string) *Val {
 			obj, path, _ = types.LookupFieldOrMethod(x.T, true, nt.Obj().Pkg(), name)
 		}
 	}
+	if obj == nil {
+		// a defined type over a struct of another package (type PublicKey internal.PublicKey): direct fields by name
+		t := x.T
+		if pt, ok := t.Underlying().(*types.Pointer); ok {
+			t = pt.Elem()
+		}
+		if st, ok := t.Underlying().(*types.Struct); ok {
+			for i := 0; i < st.NumFields(); i++ {
+				if st.Field(i).Name() == name {
+					obj, path = st.Field(i), []int{i}
+				}
+			}
+		}
+	}
 	if _, ok := obj.(*types.Var); !ok {
 		sfail("no field %s in %s", name, x.T)
 	}
